@@ -168,15 +168,19 @@ def pymod(a, d):
 
 
 class Obligation:
-    def __init__(self, name, hyps, goal, note=""):
+    def __init__(self, name, hyps, goal, note="", insts=None):
         self.name, self.hyps, self.goal, self.note = name, list(hyps), goal, note
+        # explicit instances of the quantified hypotheses (FORALL-elimination done by the sidecar): when present the obligation is
+        # first tried quantifier-free (quantified hypotheses dropped - weakening is sound - and these instances added)
+        self.insts = list(insts) if insts is not None else None
 
 
 class Path:
-    def __init__(self, pc, outcome, value, obls, decisions, yields=None, ghost=None):
+    def __init__(self, pc, outcome, value, obls, decisions, yields=None, ghost=None, insts=None):
         self.pc, self.outcome, self.value, self.obls, self.decisions = pc, outcome, value, obls, decisions
         self.yields = yields
         self.ghost = ghost or {}
+        self.insts = list(insts or [])
 
 
 _QCACHE = {}
@@ -187,7 +191,7 @@ def has_quantifier(f):
         return False
     key = f.get_id()
     if key in _QCACHE:
-        return _QCACHE[key]
+        return _QCACHE[key][1]
     seen, stack, found = set(), [f], False
     while stack:
         t = stack.pop()
@@ -198,7 +202,7 @@ def has_quantifier(f):
             found = True
             break
         stack.extend(t.children())
-    _QCACHE[key] = found
+    _QCACHE[key] = (f, found)  # the term is kept alive with its entry: z3 reuses the ids of freed terms
     return found
 
 
@@ -213,6 +217,7 @@ class Explorer:
         self.prefix, self.decisions, self.pc, self.obls = list(prefix), [], [], []
         self.counter = 0
         self.ghost = {}
+        self.insts = []
 
     def fresh(self, sort, hint="v"):
         self.counter += 1
@@ -288,8 +293,15 @@ class Explorer:
             return
         self.pc.append(cond)
 
+    def instance(self, fml):
+        """register a quantifier-free INSTANCE of a quantified hypothesis already assumed on this path (the caller builds it with
+        the same formula builder as the quantified hypothesis, so it is an instance by construction)"""
+        if has_quantifier(fml):
+            raise Unsupported("instance() of a quantified formula")
+        self.insts.append(fml)
+
     def oblige(self, name, goal, note=""):
-        self.obls.append(Obligation(name, self.axioms + self.pc, goal, note))
+        self.obls.append(Obligation(name, self.axioms + self.pc, goal, note, insts=self.insts if self.insts else None))
 
     def explore(self, thunk: Callable[["Explorer"], Any]) -> List[Path]:
         self.worklist = [[]]
@@ -299,9 +311,9 @@ class Explorer:
             self._begin(prefix)
             try:
                 v = thunk(self)
-                paths.append(Path(list(self.pc), "return", v, self.obls, self.decisions, ghost=self.ghost))
+                paths.append(Path(list(self.pc), "return", v, self.obls, self.decisions, ghost=self.ghost, insts=self.insts))
             except PyRaise as e:
-                paths.append(Path(list(self.pc), "raise", e, self.obls, self.decisions, ghost=self.ghost))
+                paths.append(Path(list(self.pc), "raise", e, self.obls, self.decisions, ghost=self.ghost, insts=self.insts))
             except PathAbort:
                 if self.obls:
                     paths.append(Path(list(self.pc), "aborted", None, self.obls, self.decisions, ghost=self.ghost))
